@@ -4,9 +4,10 @@ CONSTANTS
   MaxProd = 4  MaxTables = 1  MaxDepth = 2
   OpenKinds = {"Device"}  DeclKindsOn = {"Name"}
   Forms = {}
+  FieldKinds = {"Field", "IndexField", "BankField"}
   ScopeOn = FALSE  FieldOn = FALSE  MethodFlags = {1, 10}  StmtKinds = {"call1", "call2", "nest", "nestfirst", "ref", "ret", "if"}  MaxStmts = 2
   Widths = {}
-  Excluded = {"D1", "D1b", "D2", "D2c", "D3", "D5", "D7", "D8", "D9"}
+  Excluded = {"D1", "D1b", "D2", "D2c", "D3", "D5", "D7", "D8", "D9", "D10", "D11"}
   Emit = TRUE  Bug = ""
 INIT Init
 NEXT Next
